@@ -28,6 +28,7 @@ CONSTANTS MaxMsgs,          \* messages / events per history
           MaxPeerEv,        \* 0: peer connects/disconnects count as messages; k > 0: they have a budget
                             \* of their own (k per history), kept in the tens digit of nmsgs
           MaxRestarts, MaxFaults, MaxCrashes,
+          FaultKinds,       \* fault parameters of Headers the configuration explores (0 = none, see Headers)
           FixCpFloor,       \* reorg floor uses the checkpoint AT the tip height too
           FixListReset,     \* header list re-anchored on the stored tip on early returns
           FixFilterTip,     \* rollBackToHeight lowers the in-memory filter tip
@@ -60,7 +61,12 @@ W == [bfile |-> bfile, bidx |-> bidx, btip |-> btip, ffile |-> ffile, ftip |-> f
       hl |-> hl, nextCp |-> nextCp, sync |-> sync, cands |-> cands, conn |-> conn,
       lastBlock |-> lastBlock, startH |-> startH, disc |-> disc, lastReq |-> lastReq,
       hTip |-> hTip, fhTip |-> fhTip, ev |-> <<>>, panic |-> FALSE,
-      budget |-> -1, crashed |-> FALSE]
+      budget |-> -1, crashed |-> FALSE,
+      \* injected store-rollback failure of this headers message: the fkB-th call of the
+      \* block store's RollbackLastBlock / the fkF-th call of the filter store's
+      \* RollbackLastBlock(newTip) returns an error (0 = none); nB, nF count the calls
+      \* made so far, fired = the failure has been delivered
+      fkB |-> 0, fkF |-> 0, nB |-> 0, nF |-> 0, fired |-> FALSE]
 
 Commit(w) ==
   /\ bfile' = w.bfile /\ bidx' = w.bidx /\ btip' = w.btip
@@ -108,7 +114,10 @@ WriteB(w0, es) ==
   IN  [w EXCEPT !.bfile = @ \o ids, !.bidx = nidx, !.btip = es[top][1]]
 
 \* RollbackLastBlock of the block store. Returns [w, ok, id, h] (new tip).
-RollbackB(w0) ==
+RollbackB(w00) ==
+  LET w0 == [w00 EXCEPT !.nB = @ + 1] IN
+  IF w0.nB = w0.fkB          \* injected I/O error: nothing is touched
+  THEN [w |-> [w0 EXCEPT !.fired = TRUE], ok |-> FALSE, id |-> ERR, h |-> ERR] ELSE
   IF Dead(w0) THEN [w |-> Die(w0), ok |-> FALSE, id |-> ERR, h |-> ERR] ELSE
   LET w == Spend(w0)
       h == IdxOf(w, w.btip)
@@ -122,7 +131,10 @@ RollbackB(w0) ==
                 ok |-> TRUE, id |-> prev, h |-> h - 1]
 
 \* RollbackLastBlock(newTip) of the filter store. Returns [w, ok, h].
-RollbackF(w0, newTip) ==
+RollbackF(w00, newTip) ==
+  LET w0 == [w00 EXCEPT !.nF = @ + 1] IN
+  IF w0.nF = w0.fkF          \* injected I/O error: nothing is touched
+  THEN [w |-> [w0 EXCEPT !.fired = TRUE], ok |-> FALSE, h |-> ERR] ELSE
   IF Dead(w0) THEN [w |-> Die(w0), ok |-> FALSE, h |-> ERR] ELSE
   LET w == Spend(w0)
       h == IdxOf(w, w.ftip)
@@ -137,7 +149,11 @@ FindPrevCp(h) == LET S == {c \in CpHeights : c < h}
                  IN  IF S = {} THEN 0 ELSE CHOOSE c \in S : \A d \in S : d <= c
 MaxCp == IF CpHeights = {} THEN -1 ELSE CHOOSE c \in CpHeights : \A d \in CpHeights : d <= c
 
-\* blockmanager.go rollBackToHeight. Returns [w, ok].
+\* blockmanager.go rollBackToHeight. Returns [w, ok]. Per block: filter-store
+\* rollback (only if the filter headers reach that high), block-store rollback,
+\* FetchHeader of the new tip, Disconnected event. An error of any of them ends the
+\* function there: what was removed stays removed (and was announced), the block
+\* whose store call failed is not announced.
 RECURSIVE RollLoop(_, _, _, _, _)
 RollLoop(w, bsId, bsH, regH, target) ==
   IF w.crashed THEN [w |-> w, ok |-> TRUE]
@@ -276,11 +292,19 @@ HandleHeaders(w, p, b, failWrite) ==
   ELSE IF FixListReset THEN Realign(HandleHeaders0(w, p, b, failWrite))
        ELSE HandleHeaders0(w, p, b, failWrite)
 
-HandleNewPeer(w, p, sh) ==
-  LET w1 == [w EXCEPT !.conn[p] = TRUE, !.lastBlock[p] = sh, !.startH[p] = sh,
-                      !.disc[p] = 0, !.cands = Append(@, p)]
-  IN  IF BTip(w1)[1] = ERR THEN w1 ELSE StartSync(w1)
+\* handleNewPeerMsg. A peer that does not offer SFNodeNetwork (full = FALSE) is not a
+\* sync candidate (isSyncCandidate): the handler returns before it touches the
+\* candidate list or startSync. The peer is connected all the same: its invs and
+\* headers reach handleInvMsg / handleHeadersMsg like anybody else's.
+HandleNewPeer(w, p, sh, full) ==
+  LET w0 == [w EXCEPT !.conn[p] = TRUE, !.lastBlock[p] = sh, !.startH[p] = sh, !.disc[p] = 0]
+      w1 == [w0 EXCEPT !.cands = Append(@, p)]
+  IN  IF ~full THEN w0
+      ELSE IF BTip(w1)[1] = ERR THEN w1 ELSE StartSync(w1)
 
+\* handleDonePeerMsg: the peer leaves the candidate list if it is there; whoever it
+\* was (candidate or not), if it is the sync peer the sync peer is dropped, the list
+\* re-anchored and a new sync peer elected.
 HandleDonePeer(w, p) ==
   LET w1 == [w EXCEPT !.conn[p] = FALSE, !.disc[p] = 0,
                       !.cands = SelectSeq(@, LAMBDA c : c # p)]
@@ -328,18 +352,27 @@ ObsOf(w) ==
    cur |-> IF Synced(w) THEN 1 ELSE 0,
    disc |-> w.disc]
 
-\* After a crash only the stores exist; everything in memory is blanked.
-MaskDead(o) == [o EXCEPT !.ev = <<>>, !.bl = [k \in 1..(HMax - 1) |-> <<ERR>>],
+\* After the death of the process only the stores exist; everything in memory is
+\* blanked. (Events: a crash commits ev = <<>>, see Finish; a panic keeps what was
+\* delivered before it.)
+MaskDead(o) == [o EXCEPT !.bl = [k \in 1..(HMax - 1) |-> <<ERR>>],
                          !.sync = 0, !.cur = 0, !.disc = [p \in Peers |-> 0]]
 
 Obs == IF down THEN MaskDead(ObsOf([W EXCEPT !.ev = ev])) ELSE ObsOf([W EXCEPT !.ev = ev])
 
-Act(op, p, batch, k, res) == [op |-> op, p |-> p, batch |-> batch, k |-> k, res |-> res]
+\* nf = 1: NewPeer of a peer that is not a full node (no SFNodeNetwork); 0 otherwise
+Act(op, p, batch, k, res) == [op |-> op, p |-> p, batch |-> batch, k |-> k, res |-> res, nf |-> 0]
 
-Finish(w, a0) ==
-  LET a == IF w.crashed THEN [a0 EXCEPT !.res = "crash"]
+\* "Rollback failed" panic of the reorganisation path on an injected store error:
+\* the process is gone (only Recover follows), the events delivered before it were
+\* delivered.
+PanicDead(w) == w.panic /\ w.fired
+
+Finish(w0, a0) ==
+  LET w == IF w0.crashed THEN [w0 EXCEPT !.ev = <<>>] ELSE w0
+      a == IF w.crashed THEN [a0 EXCEPT !.res = "crash"]
            ELSE IF w.panic THEN [a0 EXCEPT !.res = "panic"] ELSE a0
-      o2 == IF w.crashed THEN MaskDead(ObsOf(w)) ELSE ObsOf(w)
+      o2 == IF w.crashed \/ PanicDead(w) THEN MaskDead(ObsOf(w)) ELSE ObsOf(w)
   IN  /\ Commit(w)
       /\ act' = a
       /\ abs' = AbsNext(abs, a, o2)
@@ -349,9 +382,9 @@ Tick == ~down /\ (nmsgs % 10) < MaxMsgs /\ nmsgs' = nmsgs + 1 /\ UNCHANGED nrest
 PTick == IF MaxPeerEv = 0 THEN Tick
          ELSE ~down /\ (nmsgs \div 10) < MaxPeerEv /\ nmsgs' = nmsgs + 10 /\ UNCHANGED nrestarts
 
-NewPeer(p, sh) ==
+NewPeer(p, sh, nf) ==
   /\ PTick /\ ~conn[p] /\ UNCHANGED <<nfaults, ncrashes, down>>
-  /\ Finish(HandleNewPeer(W, p, sh), Act("NewPeer", p, <<>>, sh, "ok"))
+  /\ Finish(HandleNewPeer(W, p, sh, nf = 0), [Act("NewPeer", p, <<>>, sh, "ok") EXCEPT !.nf = nf])
 
 DonePeer(p) ==
   /\ PTick /\ conn[p] /\ UNCHANGED <<nfaults, ncrashes, down>>
@@ -362,11 +395,23 @@ Inv(p, id) ==
   /\ Finish(HandleInv(W, p, id), Act("Inv", p, <<id>>, 0, "ok"))
 
 \* fw = 1: the store's WriteHeaders fails for the validated batch (I/O error)
+\* fw = 20 + j: the j-th RollbackLastBlock call this message makes on the block-header
+\*              store fails; fw = 30 + j: the j-th RollbackLastBlock(newTip) call on the
+\*              filter-header store fails (enabled only if the message makes that call).
+\* The reorganisation caller panics on the error ("Rollback failed"): the process
+\* is dead, only Recover follows. The checkpoint-mismatch caller logs it and
+\* carries on.
+AllFaultKinds == {0, 1} \cup {20 + j : j \in 1..3} \cup {30 + j : j \in 1..3}
 Headers(p, b, fw) ==
   /\ Tick /\ conn[p]
-  /\ fw = 1 => nfaults < MaxFaults
-  /\ nfaults' = nfaults + fw /\ UNCHANGED <<ncrashes, down>>
-  /\ Finish(HandleHeaders(W, p, b, fw = 1), Act("Headers", p, b, fw, "ok"))
+  /\ fw # 0 => nfaults < MaxFaults
+  /\ nfaults' = nfaults + (IF fw = 0 THEN 0 ELSE 1) /\ UNCHANGED ncrashes
+  /\ LET w0 == [W EXCEPT !.fkB = IF fw \in 21..23 THEN fw - 20 ELSE 0,
+                         !.fkF = IF fw \in 31..33 THEN fw - 30 ELSE 0]
+         w  == HandleHeaders(w0, p, b, fw = 1)
+     IN  /\ fw >= 20 => w.fired
+         /\ down' = PanicDead(w)
+         /\ Finish(w, Act("Headers", p, b, fw, "ok"))
 
 \* The process dies after cb store mutations of this message reached the disk
 \* (act.k = 10 + cb). Enabled only if the message performs more than cb.
@@ -457,10 +502,11 @@ Init ==
   /\ abs = AbsInit /\ act = Act("Init", 0, c, fl, "ok") /\ viol = {}
 
 Next ==
-  \/ \E p \in Peers : \E sh \in StartHeights : NewPeer(p, sh)
+  \/ \E p \in Peers : \E sh \in StartHeights :
+        \E nf \in (IF p \in LightPeers /\ sh \in LightStart THEN {0, 1} ELSE {0}) : NewPeer(p, sh, nf)
   \/ \E p \in Peers : DonePeer(p)
   \/ \E p \in Peers : \E id \in InvIds : Inv(p, id)
-  \/ \E p \in Peers : \E k \in 1..Len(Batches) : \E fw \in {0, 1} : Headers(p, Batches[k], fw)
+  \/ \E p \in Peers : \E k \in 1..Len(Batches) : \E fw \in FaultKinds : Headers(p, Batches[k], fw)
   \/ \E p \in Peers : \E k \in 1..Len(Batches) : \E cb \in 0..4 : HeadersCrash(p, Batches[k], cb)
   \/ \E k \in 1..MaxCF : WriteCF(k)
   \/ \E k \in 1..2 : ImportReset(k)
@@ -473,6 +519,7 @@ TypeOK ==
   /\ sync \in 0..NPeers
   /\ Len(hl) >= 1
   /\ nextCp \in CpHeights \cup {0}
+  /\ FaultKinds \subseteq AllFaultKinds
 
 NoViolation == viol = {}
 
